@@ -7,7 +7,7 @@ PROPERTY = "C01"
 LEAN_MODULE = "IsobarV.Props.C01"
 THEOREMS = ["IsobarV.C01." + t for t in (
     "onset_closed_form", "firstTick_iff_cdiv", "onset_from_start", "no_drift", "rounding_independent",
-    "nudge_shift", "local_time_advances")]
+    "nudge_shift", "local_time_advances", "performSolo_clock", "solo_clock")]
 RULE = ("(a) random histories (1-3 tracks, on/off-grid durations >= 1 tick, quantize/delay starts, nudges, updates) run on the real "
         "Timeline and on the Lean model, diffed tick by tick; (b) single-track runs checked against the closed form "
         "start + ceil(S_k / q) computed in exact rationals; (c) long runs (10^5 .. 2*10^6 ticks) against the closed form. "
